@@ -43,7 +43,8 @@ class BaseRequest:
             if out_err:
                 err = out_err
                 break
-        raise err
+        # mapped errors are shared instances: do not let tracebacks pile up on them
+        raise err.with_traceback(None)
 
     @staticmethod
     def _on_env_changed(request, key, v):
